@@ -208,6 +208,12 @@ op('regexp_simplify', ['regexp'], ra.regexp_simplify, d_rx, out='regexp')
 op('regexp_to_nfa', ['regexp'], ra.regexp_to_nfa, d_fa, out='nfa')
 op('print_regexp', ['regexp'], rx.print_regexp, _d_text_rx(parse_regexp))
 op('print_regexp_simple', ['regexp'], rx.print_regexp_simple, _d_text_rx(parse_simple_regexp))
+# finite languages given as plain word sets (the pass-through branch of the generic generator)
+op('generate_language_words', ['words'], lambda L, n: lg.generate_language(L, n), d_value, params=('n',))
+op('check_equal_languages_words_dfa', ['words', 'dfa'], lambda L, D: lg.check_equal_languages(L, D, 3), d_feedback)
+op('check_equal_languages_dfa_words', ['dfa', 'words'], lambda D, L: lg.check_equal_languages(D, L, 2), d_feedback)
+op('language_reverse_words', ['words'], la.language_reverse, d_value)
+op('concatenation_words', ['words', 'words'], la.concatenation, d_value)
 # printer -> parser round trips (the pipeline the notebook generator uses)
 op('reparse_dfa', ['dfa'], lambda D: da.parse_dfa(da.print_dfa(D)), d_fa)
 op('reparse_nfa', ['nfa'], lambda N: na.parse_nfa(na.print_nfa(N)), d_fa)
@@ -533,6 +539,15 @@ def gen_session(rng, n_calls):
         make(s)
     for _ in range(rng.randint(1, 2)):
         make({'kind': 'regexp', 'tree': genrx.tree(rng, rng.randint(0, 6), list(sigma))})
+    for _ in range(rng.randint(1, 2)):
+        make({'kind': 'words', 'words': sorted({_words(rng, sigma, 5) for _ in range(rng.randint(0, 6))})})
+    if rng.random() < 0.08 and len(sigma) == 2:
+        # legal but unusual: an alphabet that is not uniquely decodable ({x, y, xy})
+        d3 = _simple_dfa(rng, [sigma[0], sigma[1], 'c'], n_max=3)
+        ren = {'c': sigma[0] + sigma[1]}
+        d3['Sigma'] = [ren.get(x, x) for x in d3['Sigma']]
+        d3['delta'] = [[q, ren.get(x, x), t] for q, x, t in d3['delta']]
+        make(d3)
     for spec in list(made):
         if spec['kind'] in ('dfa', 'nfa', 'pda', 'cfg', 'regexp') and rng.random() < (0.6 if spec['kind'] == 'regexp' else 0.25):
             tw = edits.twin(rng, spec)      # differs in one component only: q0, F or the start variable
